@@ -342,6 +342,9 @@ func runTeardownSuite(rep *Report, tier string, seed int64, prop string) {
 	}
 	rng := rand.New(rand.NewSource(seed))
 	_ = rng
+	if prop == "C14" {
+		c14EnumDuringTeardown(rep)
+	}
 	var pendingModels []modelCheck
 	var pendingCases []string
 	defer func() { validateRg(rep, prop, pendingModels, pendingCases) }()
